@@ -83,8 +83,8 @@ def mttkrp_body(ctx, case):
     cm.compare(ctx, V, expect, bound, nterms, cm.intvalued(h), "mttkrp-value", f"n={n} U={u['kind']}")
 
 
-for _k, (_q, _t) in {"tensor": (500, 10000), "sptensor": (400, 6000), "ktensor": (400, 8000),
-                     "ttensor": (400, 8000), "sumtensor": (250, 4000)}.items():
+for _k, (_q, _t) in {"tensor": (1000, 10000), "sptensor": (800, 6000), "ktensor": (800, 8000),
+                     "ttensor": (800, 8000), "sumtensor": (500, 4000)}.items():
     cell(f"C02/mttkrp/{_k}", strategy=_strategy(_k), quick=_q, thorough=_t, shards=(2, 8))(mttkrp_body)
 
 
